@@ -10,7 +10,11 @@ RULE = ("3 fixed scenarios (the F5 and F6 witnesses, a short with stale market d
         "negative MARKET prices (public trades and L1 books at 0 / below 0; fills stay positive) - with 1-8 instruments spread over 1-3 exchanges "
         "(`init n x`), traffic concentrated on 1-3 of them, public trades of both taker sides, L2 order-book snapshots besides candles and "
         "liquidations as the price-less item, and L1 payload times before and after the event time (15 %); every product stays below 1e8 so that "
-        "Decimal + - x are exact; thorough additionally enumerates every sequence of length <= 4 over 13 symbols on one instrument "
+        "Decimal + - x are exact; plus a separately seeded family (N/2 cases, ids cfg...) with the same traffic over the set-up shapes "
+        "`init n x <kinds> <on|off> <links> <via>`: instruments of kind spot / perpetual (contract size 10) / future (0.01) / option (100) / spot with a "
+        "contract-quantity InstrumentSpec mixed on one engine, trading enabled with a strategy that emits an open request after every event (60 %), the "
+        "execution link of every exchange healthy / closed / missing (tracked but not traded) / refusing, and the events fed through Engine::process, "
+        "process_with_audit or EngineState::update_from_market / update_from_account directly; thorough additionally enumerates every sequence of length <= 4 over 13 symbols on one instrument "
         "(8 fills = side x qty{1,2} x (price,fee){(100,1),(150,0)}, 2 trades, 2 L1 books, 1 price-less item; 30 940 sequences). A case is distinct "
         "by the SHA-1 of its op lines and non-trivial when the implementation's observation (price, position, pnl_unrealised per instrument) "
         "changes at least once")
@@ -22,7 +26,8 @@ ASSUMPTIONS = [
     "event times are after the Unix epoch (the default OrderBookL1 carries the epoch as last_update_time), trade prices are finite f64 that Decimal::from_f64 represents exactly",
     "exact rational arithmetic: Decimal rounding of the L1 mid / entry average is compared to 1e-18, not modelled",
     "reading of the text: 'the instrument's current price' is InstrumentDataState::price() after the event was processed, and 'newer market data' is any market item for the instrument that arrives after the fill (arrival order, not exchange time): once a price is held, a stale or price-less item also re-evaluates the estimate at price(), which may be older than the last fill's price",
-    "trading disabled (Engine::process generates no orders); GlobalData = DefaultGlobalData (no-op)",
+    "trading disabled (Engine::process generates no orders) except in the cfg family, where the harness strategy emits one open request per event and send failures on closed / missing / refusing links are expected (the `audit-errors` line is then not printed); GlobalData = DefaultGlobalData (no-op)",
+    "set-up shapes: the starting state has no position (EngineStateBuilder offers balances only; positions are reached by fills), fills arrive as AccountEventKind::Trade (an AccountSnapshot carries orders and balances, no position or fill), the estimate is in price x quantity units for every instrument kind (the documented formula reads neither contract_size nor the settlement asset); clock = HistoricalClock",
     "the arithmetic kernels calculate_pnl_unrealised / approximate_remaining_exit_fees (position.rs), volume_weighted_mid_price and struct Level (barter-data/src/books/mod.rs), enum Side (barter-instrument/src/lib.rs) are additionally tied to the source by translation: tools/rust2lean.py regenerates their Lean definitions from the current Rust text before every build (PREBUILD) and theorem kernels_agree_with_source proves them equal to the model's definitions for all arguments; trusted there: the translator's reading of the small Rust subset it accepts (it rejects everything else) and its fixed Decimal prelude (abs, is_zero, checked_div = None exactly on a zero divisor, MAX/MIN)",
 ]
 SOURCE_FILES = ["barter/src/engine/state/mod.rs", "barter/src/engine/state/instrument/mod.rs", "barter/src/engine/state/position.rs",
